@@ -405,6 +405,101 @@ def family_classes():
         for k in range(0, 10):
             add('srpolicy_truncated', fam, [B(E.srp(96, 1, 2, [1, 2, 3, 4]).d[:k])])
         add('srpolicy_two', fam, [E.srp(96, 1, 2, [1, 2, 3, 4]), E.srp(192, 0xffffffff, 0, fill(16))])
+    # ---- BGP-LS: every NLRI type, node descriptor sub-TLVs, link / prefix descriptor TLVs at their length thresholds
+    ND = [E.ls_tlv(512, be(65001, 4)), E.ls_tlv(513, be(7, 4)), E.ls_tlv(514, be(0, 4)), E.ls_tlv(515, fill(6)), E.ls_tlv(516, [1, 1, 1, 1]), E.ls_tlv(517, be(64512, 4))]
+    nd = E.ls_node_desc(ND)
+    nd2 = E.ls_node_desc(ND[:2], container=257)
+    H = E.ls_head()
+    link_tlvs = [E.ls_tlv(258, be(1, 4) + be(2, 4)), E.ls_tlv(259, [10, 0, 0, 1]), E.ls_tlv(260, [10, 0, 0, 2]), E.ls_tlv(261, fill(16)), E.ls_tlv(262, fill(16, 2)),
+                 E.ls_tlv(263, [0x0f, 0xff, 0xf0, 0x01]), E.ls_tlv(999, [1, 2, 3])]
+    pfx_tlvs = [E.ls_tlv(263, [0, 2]), E.ls_tlv(264, [1]), E.ls_tlv(265, [24, 10, 0, 1])]
+    wf = {1: H + nd, 2: H + nd + nd2 + [b for t in link_tlvs for b in t], 3: H + nd + [b for t in pfx_tlvs for b in t],
+          4: H + nd + E.ls_tlv(265, [64] + fill(8)), 6: H + nd + E.ls_tlv(518, [0, 2, 0, 0] + fill(16)) + E.ls_tlv(263, [0, 5, 0, 6]), 5: H + nd, 0: H, 65535: fill(12)}
+    for ty, body in wf.items():
+        for reach in (True, False):
+            add('ls_wellformed', E.LS, [E.ls_nlri(ty, body)], reach)
+        add('ls_wellformed', E.LS, [E.ls_nlri(ty, body), E.ls_nlri(1, H + nd)], ap=True)
+        full = E.ls_nlri(ty, body).d
+        for k in range(len(full)):
+            add('ls_truncated_every_offset', E.LS, [B(full[:k])])
+        # announced NLRI length against the bytes present, and the 9-octet threshold of the body
+        for ln in sorted(set([0, 1, 8, 9, 10, len(body) - 1, len(body) + 1, 0xffff])):
+            add('ls_nlri_length_field', E.LS, [E.ls_nlri(ty, body, length=ln)])
+    for n in range(0, 12):
+        add('ls_body_length_threshold_9', E.LS, [E.ls_nlri(1, (H + nd)[:n])])
+    # node descriptor container: type, length against the body, sub-TLV lengths around 4 for every sub-TLV type
+    for ct in (255, 256, 257, 258, 0):
+        add('ls_container_type', E.LS, [E.ls_nlri(1, H + E.ls_node_desc(ND, container=ct))])
+    body_nd = [b for t in ND for b in t]
+    for ln in (0, 3, 4, len(body_nd) - 1, len(body_nd), len(body_nd) + 1, 0xffff):
+        add('ls_container_length', E.LS, [E.ls_nlri(1, H + E.ls_tlv(256, body_nd, length=ln))])
+        add('ls_container_length', E.LS, [E.ls_nlri(3, H + E.ls_tlv(256, body_nd, length=ln) + E.ls_tlv(265, [8, 10]))])
+    for st in (511, 512, 513, 514, 515, 516, 517, 518):
+        for n in (0, 1, 3, 4, 5, 8):
+            add('ls_node_subtlv_length_x_type', E.LS, [E.ls_nlri(1, H + E.ls_node_desc([E.ls_tlv(st, fill(n))]))])
+        add('ls_node_subtlv_overrun', E.LS, [E.ls_nlri(1, H + E.ls_node_desc([E.ls_tlv(st, fill(4), length=5)]))])
+        add('ls_node_subtlv_duplicate', E.LS, [E.ls_nlri(1, H + E.ls_node_desc([E.ls_tlv(st, fill(4)), E.ls_tlv(st, fill(4, 8))]))])
+    # link descriptor TLVs: value lengths around 4 / 8 / 16 for every type; multi-topology ids odd / even
+    for t in (257, 258, 259, 260, 261, 262, 263, 264, 265, 266):
+        for n in (0, 1, 2, 3, 4, 5, 7, 8, 9, 15, 16, 17):
+            add('ls_link_tlv_length_x_type', E.LS, [E.ls_nlri(2, H + nd + nd2 + E.ls_tlv(t, fill(n)))])
+        add('ls_link_tlv_overrun', E.LS, [E.ls_nlri(2, H + nd + nd2 + E.ls_tlv(t, fill(4), length=5) + E.ls_tlv(259, [1, 2, 3, 4]))])
+    add('ls_link_missing_remote', E.LS, [E.ls_nlri(2, H + nd)])
+    add('ls_link_missing_remote', E.LS, [E.ls_nlri(2, H + nd + E.ls_tlv(258, fill(8)))])
+    # prefix descriptor TLVs: IP reachability with prefix length x octets present (the seeded off-by-one), other types x lengths
+    for plen in (0, 1, 7, 8, 9, 24, 25, 31, 32, 33, 64, 128, 129, 255):
+        for have in sorted(set([0, max(0, (plen + 7) // 8 - 1), (plen + 7) // 8, (plen + 7) // 8 + 1])):
+            for ty in (3, 4):
+                add('ls_ip_reach_prefix_length_x_octets', E.LS, [E.ls_nlri(ty, H + nd + E.ls_tlv(265, [plen] + fill(have)))])
+    add('ls_ip_reach_empty', E.LS, [E.ls_nlri(3, H + nd + E.ls_tlv(265, []))])
+    for t in (263, 264, 266):
+        for n in (0, 1, 2, 3, 4):
+            add('ls_prefix_tlv_length_x_type', E.LS, [E.ls_nlri(3, H + nd + E.ls_tlv(t, fill(n)))])
+    # SRv6 SID information: value length around 20; multi-topology ids
+    for n in (0, 19, 20, 21, 36):
+        add('ls_srv6_sid_length', E.LS, [E.ls_nlri(6, H + nd + E.ls_tlv(518, fill(n)))])
+    for n in (0, 1, 2, 3, 4):
+        add('ls_srv6_sid_length', E.LS, [E.ls_nlri(6, H + nd + E.ls_tlv(263, fill(n)) + E.ls_tlv(518, fill(20)))])
+    for ty in (0, 1, 2, 3, 4, 5, 6, 7, 255, 256, 65535):
+        add('ls_nlri_type_values', E.LS, [E.ls_nlri(ty, H + nd + nd2)])
+    # ---- MUP: route types 1-4 for both address families; every truncation; length octet; the inner length / prefix octets
+    for fam, ab in ((E.IPV4_MUP, 4), (E.IPV6_MUP, 16)):
+        ip = fill(ab, 4); bits = ab * 8
+        goods = [(1, E.mup_isd(24, ip[:3])), (1, E.mup_isd(0, [])), (1, E.mup_isd(bits, ip)), (2, E.mup_dsd(ip)),
+                 (3, E.mup_t1st(24, ip[:3], 0x01020304, 9, ip)), (3, E.mup_t1st(bits, ip, 1, 0, ip, sa=fill(ab, 7))),
+                 (4, E.mup_t2st(bits, ip, [])), (4, E.mup_t2st(bits + 32, ip, [1, 2, 3, 4])), (4, E.mup_t2st(bits + 9, ip, [1, 2]))]
+        for rt, body in goods:
+            for reach in (True, False):
+                add('mup_wellformed', fam, [E.mup(rt, body)], reach)
+            add('mup_wellformed', fam, [E.mup(rt, body), E.mup(2, E.mup_dsd(ip))], ap=True)
+            full = E.mup(rt, body).d
+            for k in range(len(full)):
+                add('mup_truncated_every_offset', fam, [B(full[:k])])
+            for bl in sorted(set([0, 7, 8, 9, len(body) - 1, len(body) + 1, 255])):
+                add('mup_body_length_octet', fam, [E.mup(rt, body, blen=bl)])
+                add('mup_body_length_octet', fam, [E.mup(rt, body + fill(8), blen=bl)])
+            add('mup_trailing_octets_in_body', fam, [E.mup(rt, body + fill(3))])
+        for arch in (0, 2, 255):
+            add('mup_arch_and_type', fam, [E.mup(1, E.mup_isd(0, []), arch=arch)])
+        for rt in (0, 5, 255, 256, 0x0100, 0xffff):
+            add('mup_arch_and_type', fam, [E.mup(rt, E.mup_isd(0, []))])
+        for plen in (0, 1, 8, bits - 1, bits, bits + 1, bits + 8, 255):
+            for d in (-1, 0, 1):
+                n = max(0, (plen + 7) // 8 + d)
+                add('mup_prefix_length_x_octets', fam, [E.mup(1, E.mup_isd(plen, fill(n)))])
+                add('mup_prefix_length_x_octets', fam, [E.mup(3, E.mup_t1st(plen, fill(n), 5, 1, ip))])
+        for n in range(0, ab + 3):
+            add('mup_dsd_address_octets', fam, [E.mup(2, E.mup_dsd(fill(n)))])
+        for el in (0, bits - 1, bits, bits + 1, 255):
+            add('mup_t1st_length_octets', fam, [E.mup(3, E.mup_t1st(8, [10], 5, 1, ip, ea_len=el))])
+            add('mup_t1st_length_octets', fam, [E.mup(3, E.mup_t1st(8, [10], 5, 1, ip, sa=ip, sa_len=el))])
+            add('mup_t1st_length_octets', fam, [E.mup(3, E.mup_t1st(8, [10], 5, 1, ip, sa_len=el))])
+        for el in (0, bits - 1, bits, bits + 1, bits + 7, bits + 8, bits + 9, bits + 31, bits + 32, bits + 33, 255):
+            for tb in range(0, 6):
+                add('mup_t2st_endpoint_length', fam, [E.mup(4, E.mup_t2st(el & 0xff, ip, fill(tb)))])
+        for t in (0, 1, 2, 3, 255):
+            for rt, body in ((1, E.mup_isd(0, [], rd=be(t, 2) + fill(6))), (2, E.mup_dsd(ip, rd=be(t, 2) + fill(6))), (4, E.mup_t2st(bits, ip, [], rd=be(t, 2) + fill(6)))):
+                add('mup_rd_types', fam, [E.mup(rt, body)])
     # ---- flowspec: the length prefix switch (one octet below 240, two octets 0xF0|hi, lo from 240 on)
     fs4, fs6, fv4, fv6 = E.IPV4_FS, E.IPV6_FS, E.IPV4_FSVPN, E.IPV6_FSVPN
     def rule_of(n):
